@@ -33,6 +33,7 @@ const (
 	srcRipple = 12
 	srcEth    = 13
 	srcBsc    = 14
+	srcQuorum = 19
 	srcBtc0   = 15 // three bitcoin chains (15, 16, 17), each with one confirmed deposit
 	dstEth    = 20
 	dstVote   = 21
@@ -150,7 +151,7 @@ func newHist(r *kit.Run, rng *rand.Rand, netID uint32, nVals int) *hist {
 		for _, d := range []struct {
 			kind string
 			id   uint64
-		}{{"eth", srcEth}, {"bsc", srcBsc}} {
+		}{{"eth", srcEth}, {"bsc", srcBsc}, {"quorum", srcQuorum}} {
 			src := &evmSrc{s: w.NewEVMSource(krng, d.kind, d.id), name: d.kind}
 			dests := []uint64{dstEth, dstVote, srcVoteA}
 			for g := 0; g < evmGroups; g++ {
@@ -192,7 +193,7 @@ func newHist(r *kit.Run, rng *rand.Rand, netID uint32, nVals int) *hist {
 	config.DefConfig.P2PNode.NetworkId = netID
 	t.w.Restore(t.snap)
 	return &hist{r: r, rng: rng, w: t.w, vm: cs.NewVoteModel(), outs: t.outs, done: map[msgKey]bool{}, releases: map[msgKey]int{},
-		router: map[uint64]string{srcVoteA: "vote", srcVoteB: "vote", srcRipple: "ripple", srcEth: "eth", srcBsc: "bsc", srcBtc0: "btc", srcBtc0 + 1: "btc", srcBtc0 + 2: "btc"}, asset: t.asset,
+		router: map[uint64]string{srcVoteA: "vote", srcVoteB: "vote", srcRipple: "ripple", srcEth: "eth", srcBsc: "bsc", srcQuorum: "quorum", srcBtc0: "btc", srcBtc0 + 1: "btc", srcBtc0 + 2: "btc"}, asset: t.asset,
 		evm: t.evm, btc: t.btc, evmUsed: map[string]bool{}}
 }
 
@@ -459,6 +460,10 @@ func (h *hist) evmFailedFirst() bool {
 			cut := pj[:len(pj)/2+h.rng.Intn(len(pj)/2)]
 			h.evmCall("first-malformed", src, g.A1.P, false, func() *natRec { return src.s.ImportRaw(uint32(src.s.Heights[idx]), cut, g.A1.P.Serialize()) })
 		case 2: // a height the light client has no header for
+			if src.name == "quorum" { // the header travels with the proof: the refusable analogue is a seal by a non-validator
+				h.evmCall("first-outsider-seal", src, g.A1.P, false, func() *natRec { return src.s.ImportOutsider(g.A1, idx) })
+				break
+			}
 			h.evmCall("first-unknown-height", src, g.A1.P, false, func() *natRec {
 				return src.s.ImportRaw(uint32(src.s.Heights[0])-50, src.s.ProofJSON(g.A1), g.A1.P.Serialize())
 			})
@@ -915,7 +920,7 @@ func TestC20(t *testing.T) {
 	}
 	otherNetworks(r)
 	r.Set("routers_covered", []string{"vote (consensus_vote)", "ripple (as source)", "eth (ethash seal bypassed by the verif hook; header rules and Merkle-Patricia proofs real)", "bsc (really sealed Parlia headers)", "btc (vault bound through registerRedeem, single-transaction block as trust root, segwit deposit replayed in every serialisation of the same transaction)"})
-	r.Set("routers_uncovered", []string{"heco", "hsc", "msc", "pixiechain", "polygon bor", "bytom", "quorum", "cosmos", "okex", "ont", "neo", "neo3", "neo3legacy", "zilliqa", "zilliqalegacy", "starcoin", "harmony (BLS stub)"})
+	r.Set("routers_uncovered", []string{"heco", "hsc", "msc", "pixiechain", "polygon bor", "bytom", "cosmos", "okex", "ont", "neo", "neo3", "neo3legacy", "zilliqa", "zilliqalegacy", "starcoin", "harmony (BLS stub)"})
 	r.Assume("every second validator's pool entry is registered by a separate wallet account (registered address != node-key address); validators are identified by the key-derived address, the wallet accounts vote as outsiders")
 	r.Assume("routers other than vote / ripple-as-source / eth / bsc / btc reach the same CheckDoneTx/PutDoneTx pair after their proof verification; their deposits are not synthesised in this check (proof logic is covered by C23/C30/C31), so the verdict holds for the five routers exercised only")
 	r.Assume("for the vote-authenticated routers a 'submission' is a voting round; it is decided at the call that brings the distinct-validator count to ceil(2N/3). Votes before that call may record themselves (voteInfo only); a repeated round on an already released subject may return success but must change nothing")
